@@ -4,5 +4,9 @@
  * evaluates exp(-chisq / 2), which together with the returned p-value determines the number
  * of degrees of freedom the library used.
  */
+#define _GNU_SOURCE
+#include <math.h>
+#include <complex.h>
+double wb_exp(double x);
 #define exp wb_exp
 #include "vnacal_new_solve_pvalue.c"
